@@ -197,8 +197,12 @@ def classify(ctx, g, body, call):
             if ok:
                 key = (strip_path(parts[0]), strip_path(parts[1]))
         return AdjOp('e', name, None, key, call)
+    # `mem::take(&mut node.children)` empties the set as a whole, like `drain` / `clear`
+    taken = call.qname == 'std::mem::take' and call.gargs and call.gargs[0].startswith(tuple(SET_LIKE))
+    if taken:
+        name = 'drain'
     for enc, fname in (('c', g.get('children')), ('p', g.get('parents'))):
-        if fname and fname in fields and (call.impl_self or '').startswith(tuple(SET_LIKE)):
+        if fname and fname in fields and ((call.impl_self or '').startswith(tuple(SET_LIKE)) or taken):
             base = frozenset(Origin(o.kind, o.key, tuple(p for p in o.path if not (isinstance(p, tuple) and p[0] == 'f' and p[1] == fname))) for o in recv)
             node = strip_path(_slot_key_of(body, base, g))
             key = strip_path(body.orig_operand(call.args[1])) if len(call.args) > 1 else None
@@ -387,6 +391,12 @@ def typestate(ctx, g, body, src_idx, dst_idx, rank_writers):
                 g_ = body.guard_of(bb, [x[1] for x in body.succ[bb]].index(lab))
                 if g_ is not None and g_.kind == 'enum' and g_.variants() is not None and len(g_.variants()) == 0:
                     continue
+                # an existing edge implies that both of its nodes exist: `node_info.get(src)` / `get_mut(dst)` is not None
+                if st.entry == 1 and g_ is not None and g_.kind == 'enum' and g_.variants() == frozenset(['None']):
+                    scs = [c for c in g_.subject_calls() if c.name in ('get', 'get_mut') and len(c.args) > 1
+                           and any(('f', g['node_info']) in o.path for o in body.orig_operand(c.args[0]))]
+                    if scs and all(is_param(strip_path(body.orig_operand(c.args[1])), src_idx) or is_param(strip_path(body.orig_operand(c.args[1])), dst_idx) for c in scs):
+                        continue
                 work.append((tg, ns))
         else:
             for tg, _ in body.succ[bb]:
